@@ -44,6 +44,10 @@ static void run(const char* name, Vec& shared, const Vec& second, Mutate mutate,
 {
     std::vector<Vec> own;
     for (int t = 0; t < THREADS; ++t) own.emplace_back(shared);  // copied from one another
+    // a shared ELEMENT (const operations on it from every thread) and a const lvalue of the mutable reference type
+    using El = typename Vec::value_type;
+    const El shared_elem(std::as_const(shared)[0]);
+    const typename Vec::reference shared_ref = shared[0];
     g_ready = 0;
     std::vector<std::thread> ts;
     const Vec& cs = shared;
@@ -70,6 +74,17 @@ static void run(const char* name, Vec& shared, const Vec& second, Mutate mutate,
                     {
                         typename Vec::value_type e(cs[i]);
                         a += touch(typename Vec::const_reference{e}, std::make_index_sequence<NP>{});
+                    }
+                    {
+                        El c(shared_elem);  // copying a shared element
+                        a += touch(typename Vec::const_reference{std::as_const(c)}, std::make_index_sequence<NP>{});
+                        El c2(shared_elem, shared_elem.get_allocator());
+                        c2 = shared_elem;  // copy assignment FROM the shared element into a private one
+                        a += touch(typename Vec::const_reference{std::as_const(c2)}, std::make_index_sequence<NP>{});
+                        a += touch(typename Vec::const_reference{shared_elem}, std::make_index_sequence<NP>{});
+                        a += (shared_elem == shared_elem) + (shared_elem < shared_elem) + (shared_elem == cs[0]) + (cs[0] == shared_elem);
+                        El c3(shared_ref);  // element from a const lvalue of the mutable reference type: a copy
+                        a += touch(typename Vec::const_reference{std::as_const(c3)}, std::make_index_sequence<NP>{});
                     }
                     mutate(own[static_cast<std::size_t>(t)], rep);
                 }
